@@ -7,6 +7,7 @@ package main
 import (
 	"fmt"
 	"sort"
+	"sync"
 	"github.com/awalterschulze/gominikanren/example/peano"
 	"github.com/awalterschulze/gominikanren/micro"
 	"github.com/awalterschulze/gominikanren/mini"
@@ -156,14 +157,42 @@ func directedPeano(rep *Report) {
 		rep.violate(-1, "result-changed-by-later-call", "kept := RunGoal(-1, x + y = 3); then RunGoal(-1, q <= 2) and Run(5, half(q, 2)); MKReify(kept) again",
 			fmt.Sprintf("the %d kept answers reified as %s before and as %s after the later queries", len(kept), snap, now))
 	}
-	rep.hist("directed: peano sums of 40 and 300, answers kept across queries")
+	// Makenat from several goroutines at once, for numbers nobody asked for before; then every numeral is what it should be
+	{
+		var wg sync.WaitGroup
+		start := make(chan struct{})
+		for g := 0; g < 8; g++ {
+			wg.Add(1)
+			go func() {
+				defer wg.Done()
+				<-start
+				for n := 500; n < 900; n++ {
+					peano.Makenat(n)
+				}
+			}()
+		}
+		close(start)
+		wg.Wait()
+		for n := 0; n < 900; n += 7 {
+			t, depth := peano.Makenat(n), 0
+			for t != nil && t.Pair != nil {
+				t, depth = t.Pair.Car, depth+1
+			}
+			if depth != n || t != peano.Zero || peano.Parsenat(peano.Makenat(n)) != n {
+				rep.violate(-1, "makenat-after-concurrent-calls", fmt.Sprintf("Makenat(%d) after 8 goroutines called Makenat(500..899) at once", n),
+					fmt.Sprintf("the numeral has depth %d and Parsenat gives %d", depth, peano.Parsenat(peano.Makenat(n))))
+				break
+			}
+		}
+	}
+	rep.hist("directed: peano sums of 40 and 300, answers kept across queries, Makenat from 8 goroutines")
 }
 
 // directedMini: the list relations where no generated case goes.
 //   - mapo with a relation argument that only ends when its FIRST argument is known (snoc: f(in, out) = appendo(in, (!), out)),
 //     in the mode "x known, the other list of known length with unknown elements": the recursive relation ends at once with one
 //     answer, and so must the unrolled variants (stepped with a budget, nothing can hang);
-//   - searches that start at a variable counter just below 2^8, 2^16, 2^32 (State is an exported struct), with the query
+//   - searches that start at a variable counter just below a power of two (2^8 .. 2^32) (State is an exported struct), with the query
 //     variables 0 and 1: every variable the search introduces is new, whatever its number.
 func directedMini(rep *Report) {
 	bang := ast.NewSymbol("!")
@@ -194,7 +223,7 @@ func directedMini(rep *Report) {
 	for _, c0 := range []uint64{0, 1, 2} {
 		observeTrace(mini.AppendO(micro.Var(0), micro.Var(1), abc)(&micro.State{Substitutions: nil, Counter: c0}), 3000)
 	}
-	for _, top := range []uint64{1 << 8, 1 << 16, 1 << 32} {
+	for _, top := range []uint64{1 << 8, 1 << 10, 1 << 12, 1 << 13, 1 << 14, 1 << 15, 1 << 16, 1 << 20, 1 << 24, 1 << 31, 1 << 32} {
 		for _, back := range []uint64{1, 2, 5} {
 			st := &micro.State{Substitutions: nil, Counter: top - back}
 			q := ast.NewList(micro.Var(0), micro.Var(1))
@@ -220,5 +249,5 @@ func directedMini(rep *Report) {
 			}
 		}
 	}
-	rep.hist("directed: searches started at counters just below 2^8, 2^16, 2^32")
+	rep.hist("directed: searches started at counters just below 2^8 .. 2^32")
 }
